@@ -1,0 +1,83 @@
+//go:build verif
+
+package collection
+
+import (
+	"fmt"
+
+	"github.com/tidwall/tile38/internal/object"
+)
+
+// VerifAudit cross-checks the collection's indexes and counters against the
+// objects reachable through the id map. It returns one line per problem.
+func (c *Collection) VerifAudit() []string {
+	var out []string
+	bad := func(f string, a ...interface{}) {
+		if len(out) < 20 {
+			out = append(out, fmt.Sprintf(f, a...))
+		}
+	}
+	var nspatial, nvalues, nexpires, nindexed, weight, points int
+	c.objs.Scan(func(id string, o *object.Object) bool {
+		if o.ID() != id {
+			bad("objs key %q holds object with id %q", id, o.ID())
+		}
+		weight += o.Weight()
+		points += o.Geo().NumPoints()
+		if o.IsSpatial() {
+			nspatial++
+			if !o.Geo().Empty() {
+				nindexed++
+				min, max, _ := rtreeItem(o)
+				found := false
+				c.spatial.Search(min, max, func(_, _ [2]float32, v *object.Object) bool {
+					if v == o {
+						found = true
+						return false
+					}
+					return true
+				})
+				if !found {
+					bad("object %q is missing from the spatial index at its current rectangle", id)
+				}
+			}
+		} else {
+			nvalues++
+			if v, ok := c.values.Get(o); !ok || v != o {
+				bad("string object %q is missing from the values index", id)
+			}
+		}
+		if o.Expires() != 0 {
+			nexpires++
+			if v, ok := c.expires.Get(o); !ok || v != o {
+				bad("object %q has a deadline but is missing from the expires index", id)
+			}
+		}
+		return true
+	})
+	if c.objs.Len() != c.objects+c.nobjects {
+		bad("objs has %d entries, counters say %d geometries + %d strings", c.objs.Len(), c.objects, c.nobjects)
+	}
+	if nspatial != c.objects {
+		bad("geometry counter %d, actual %d", c.objects, nspatial)
+	}
+	if nvalues != c.nobjects {
+		bad("string counter %d, actual %d", c.nobjects, nvalues)
+	}
+	if c.spatial.Len() != nindexed {
+		bad("spatial index holds %d entries, %d non-empty geometries exist", c.spatial.Len(), nindexed)
+	}
+	if c.values.Len() != nvalues {
+		bad("values index holds %d entries, %d strings exist", c.values.Len(), nvalues)
+	}
+	if c.expires.Len() != nexpires {
+		bad("expires index holds %d entries, %d objects have a deadline", c.expires.Len(), nexpires)
+	}
+	if weight != c.weight {
+		bad("weight counter %d, recomputed %d", c.weight, weight)
+	}
+	if points != c.points {
+		bad("points counter %d, recomputed %d", c.points, points)
+	}
+	return out
+}
